@@ -43,7 +43,7 @@ manifest = {
     },
     "engines": [
         {"name": "verif-harness", "path": "/verif/harness", "serves_properties": sorted(CHECKS.keys()),
-         "kind_free_text": "Rust harness (cargo workspace with path dependencies on /repo/jaq-*): byte-stream-decoded generators driven by proptest's TestRunner on 16 workers with shrinking, exhaustive small-scope enumerations, model oracles (value model, reference interpreter), in-language metamorphic laws, independent consumers (dash, python) and system-call level fault injection (strace)"},
+         "kind_free_text": "Rust harness (cargo workspace with path dependencies on /repo/jaq-*): byte-stream-decoded generators driven by proptest's TestRunner on 16 workers with shrinking, exhaustive small-scope enumerations, model oracles (value model, reference interpreter), in-language metamorphic laws, independent consumers (dash, python) system-call level monitoring and fault injection (strace), child processes under stack/address-space limits, and (C05 thorough tier) cargo-fuzz/libFuzzer targets under /verif/fuzz"},
     ],
     "checks": checks,
     "not_applicable": na,
